@@ -36,11 +36,13 @@ package sweep
 //@
 //@ func (l *LinearFeeFunction) FeeRate
 //@   props C18
+//@   bounds-safe
 //@   ensures result == l.currentFeeRate
 //@   modifies nothing
 //@
 //@ func (l *LinearFeeFunction) feeRateAtPosition
 //@   props C18
+//@   bounds-safe
 //@   requires wfLin(l.startingFeeRate, l.endingFeeRate, l.deltaFeeRate, l.width)
 //@   ensures result == frAt(l.startingFeeRate, l.endingFeeRate, l.deltaFeeRate, l.width, p)
 //@   ensures result <= l.endingFeeRate
@@ -53,6 +55,7 @@ package sweep
 //@
 //@ func (l *LinearFeeFunction) increaseFeeRate
 //@   props C18
+//@   bounds-safe
 //@   uses frAtMono(l.startingFeeRate, l.endingFeeRate, l.deltaFeeRate, l.width, l.position, position); frAtBounds(l.startingFeeRate, l.endingFeeRate, l.deltaFeeRate, l.width, position)
 //@   requires wfAll(l.startingFeeRate, l.endingFeeRate, l.deltaFeeRate, l.width, l.currentFeeRate, l.position)
 //@   requires position > l.position
@@ -68,6 +71,7 @@ package sweep
 //@
 //@ func (l *LinearFeeFunction) Increment
 //@   props C18
+//@   bounds-safe
 //@   requires wfAll(l.startingFeeRate, l.endingFeeRate, l.deltaFeeRate, l.width, l.currentFeeRate, l.position)
 //@   requires l.position < 4294967295
 //@   ensures  wfAll(l.startingFeeRate, l.endingFeeRate, l.deltaFeeRate, l.width, l.currentFeeRate, l.position)
@@ -80,6 +84,7 @@ package sweep
 //@
 //@ func (l *LinearFeeFunction) IncreaseFeeRate
 //@   props C18
+//@   bounds-safe
 //@   requires wfAll(l.startingFeeRate, l.endingFeeRate, l.deltaFeeRate, l.width, l.currentFeeRate, l.position)
 //@   requires l.width < 4294967295
 //@   ensures  wfAll(l.startingFeeRate, l.endingFeeRate, l.deltaFeeRate, l.width, l.currentFeeRate, l.position)
@@ -98,6 +103,7 @@ package sweep
 //@
 //@ func (r *BumpRequest) MaxFeeRateAllowed
 //@   props C18
+//@   bounds-safe
 //@   requires 0 <= r.MaxFeeRate && r.MaxFeeRate <= 1<<40 && 0 <= r.Budget
 //@   ensures result1 == nil ==> 0 <= result0 && result0 <= 1<<40
 //@   ensures result1 == nil ==> result0 <= r.MaxFeeRate && result0 <= ret(NewSatPerKWeight)
@@ -106,11 +112,13 @@ package sweep
 //@
 //@ func (t *TxPublisher) createAndCheckTx
 //@   props C18
+//@   bounds-safe
 //@   ensures result1 == nil ==> result0.fee <= old(r.req).Budget
 //@   site call createSweepTx: assert arg(feeRate) == ret(FeeRate) && arg(inputs) == r.req.Inputs
 //@
 //@ func calcCurrentConfTarget
 //@   props C18
+//@   bounds-safe
 //@   requires 0 <= currentHeight && 0 <= deadline
 //@   ensures  result == ite(deadline >= currentHeight, deadline - currentHeight, 0)
 //@   nowrap
@@ -127,6 +135,7 @@ package sweep
 //@
 //@ func (f FeeEstimateInfo) Estimate
 //@   props C18
+//@   bounds-safe
 //@   requires 0 <= maxFeeRate && 0 <= f.FeeRate && f.FeeRate <= 1<<40
 //@   ensures  result1 == nil ==> result0 >= ret(RelayFeePerKW) || result0 == maxFeeRate
 //@   ensures  result1 == nil && maxFeeRate != 0 ==> result0 <= maxFeeRate
@@ -135,12 +144,14 @@ package sweep
 //@
 //@ func (l *LinearFeeFunction) estimateFeeRate
 //@   props C18
+//@   bounds-safe
 //@   requires 0 <= l.endingFeeRate
 //@   ensures  result1 == nil ==> 0 <= result0 && result0 <= 1<<40
 //@   modifies nothing
 //@
 //@ func NewLinearFeeFunction
 //@   props C18
+//@   bounds-safe
 //@   requires 0 <= maxFeeRate && maxFeeRate <= 1<<40
 //@   requires startingFeeRate.isSome ==> 0 <= startingFeeRate.some
 //@   ensures  result1 == nil ==> result0 != nil && result0.endingFeeRate == maxFeeRate &&
@@ -153,6 +164,7 @@ package sweep
 //@
 //@ func (t *TxPublisher) initializeFeeFunction
 //@   props C18
+//@   bounds-safe
 //@   requires 0 <= req.MaxFeeRate && req.MaxFeeRate <= 1<<40 && 0 <= req.Budget && 0 <= req.DeadlineHeight
 //@   requires req.StartingFeeRate.isSome ==> 0 <= req.StartingFeeRate.some
 //@   site call NewLinearFeeFunction: assert arg(maxFeeRate) == retn(MaxFeeRateAllowed, 0) && retn(MaxFeeRateAllowed, 1) == nil &&
@@ -161,6 +173,7 @@ package sweep
 //@
 //@ func prepareSweepTx
 //@   props C18
+//@   bounds-safe
 //@   loop * havoc
 //@   site return nil: assert 0 <= ret(fee) && ret(fee) <= 2100000000000000 && 0 <= requiredOutput && requiredOutput <= 2100000000000000 &&
 //@        0 <= totalInput && totalInput <= 2100000000000000 ==>
@@ -174,6 +187,7 @@ package sweep
 //@
 //@ func (t *TxPublisher) createRBFCompliantTx
 //@   props C18
+//@   bounds-safe
 //@   loop * havoc
 //@   site call updateRecord: assert retn(createAndCheckTx, 1) == nil && arg(1) == r && arg(2) == retn(createAndCheckTx, 0)
 //@   site call createAndCheckTx: assert arg(1) == r
@@ -182,6 +196,7 @@ package sweep
 //@
 //@ func (t *TxPublisher) handleFeeBumpTx
 //@   props C18
+//@   bounds-safe
 //@   requires r != nil && currentHeight >= 0 && r.req.DeadlineHeight >= 0
 //@   site call calcCurrentConfTarget: assert arg(0) == currentHeight && arg(1) == r.req.DeadlineHeight
 //@   site call IncreaseFeeRate: assert arg(0) == r.feeFunction && arg(1) == ret(calcCurrentConfTarget)
@@ -189,6 +204,7 @@ package sweep
 //@
 //@ func (t *TxPublisher) createAndPublishTx
 //@   props C18
+//@   bounds-safe
 //@   site call createAndCheckTx: assert arg(1) == r
 //@   site call updateRecord: assert retn(createAndCheckTx, 1) == nil && arg(1) == r && arg(2) == retn(createAndCheckTx, 0)
 //@   site call broadcast: assert arg(1) == ret(updateRecord)
@@ -214,6 +230,7 @@ package sweep
 //@ spec func storedRate(isSome bool, some int) int = ite(isSome, some, 0)
 //@ func (b *BudgetInputSet) StartingFeeRate
 //@   props C18
+//@   bounds-safe
 //@   loop 0 invariant rangeindex < len(b.inputs) && 0 <= maxFeeRate && (startingFeeRate.isSome ==> startingFeeRate.some == maxFeeRate) &&
 //@        (!startingFeeRate.isSome ==> maxFeeRate == 0) &&
 //@        forallq(j, 0, rangeindex+1, storedRate(b.inputs[j].params.StartingFeeRate.isSome, b.inputs[j].params.StartingFeeRate.some) <= maxFeeRate)
